@@ -152,13 +152,14 @@ class CCodeMapper(SimplifyingSortingStringifyMapper):
 
     def rec_with_force_parens_around(self, expr, *args, **kwargs):
         from pymbolic.primitives import Power
-        if isinstance(expr, Power):
+        while isinstance(expr, Power):
             # Callers force parentheses based on the type of the node.
             # Let them see what actually gets printed: otherwise
             # 'a / b**2' becomes 'a / b * b'.
             shortcut = self._get_power_shortcut(expr)
-            if shortcut is not None:
-                expr = shortcut
+            if shortcut is None:
+                break
+            expr = shortcut
 
         return super().rec_with_force_parens_around(expr, *args, **kwargs)
 
